@@ -35,6 +35,10 @@ def run(ctx, replay):
         # each) and different data pages: GC must release exactly the data pages below the one holding the acknowledged
         # message
         walcommon.run_wal(ctx, ["--histories", 0, "--boundarygc", 2], "boundarygc")
+    # leg R: histories of group operations (create / failed creation / stop / consume / acknowledge / set-consumed / Sync /
+    # GC / close / reopen) chosen by TLC from the store-level model, executed against the real fan-out queue
+    walcommon.run_generated(ctx, "WALQueueGen_small.cfg", 500 if thorough else 80, 400, 1, "small", maximages=4, seed_shift=5)
+    walcommon.run_generated(ctx, "WALQueueGen_roll.cfg", 40 if thorough else 4, 260, 32 * 1024 * 1024, "roll", maximages=2, seed_shift=6)
     vcore.corrupt_selftest(ctx, "WALQueueTrace", "WALQueueTrace.cfg", tr, walcommon.mutate_proj, "a message reads back other bytes")
 
     def bump_ack(lines):
